@@ -40,7 +40,7 @@ def cur():
 
 
 def is_sym(v):
-    return isinstance(v, (R, I, B, S))
+    return isinstance(v, (R, I, B, S, D))
 
 
 # --------------------------------------------------------------------------- lifting
@@ -485,6 +485,93 @@ class S:
         return 'S(%s)' % self.t
 
 
+# --------------------------------------------------------------------------- IEEE-754 double mode
+F64 = z3.Float64()
+RNE = z3.RNE()
+
+
+def lift_fp(v):
+    if isinstance(v, D):
+        return v.t
+    if isinstance(v, bool):
+        return z3.FPVal(float(v), F64)
+    if isinstance(v, (int, float)):
+        return z3.FPVal(float(v), F64)
+    if _np is not None and isinstance(v, (_np.floating, _np.integer)):
+        return z3.FPVal(float(v), F64)
+    raise TypeError('cannot lift %r to Float64' % (v,))
+
+
+class D:
+    """symbolic IEEE-754 binary64 value (round-to-nearest-even arithmetic)"""
+    __slots__ = ('t',)
+
+    def __init__(self, t):
+        self.t = t
+
+    def __add__(self, o):
+        return D(z3.fpAdd(RNE, self.t, lift_fp(o)))
+
+    def __radd__(self, o):
+        return D(z3.fpAdd(RNE, lift_fp(o), self.t))
+
+    def __sub__(self, o):
+        return D(z3.fpSub(RNE, self.t, lift_fp(o)))
+
+    def __rsub__(self, o):
+        return D(z3.fpSub(RNE, lift_fp(o), self.t))
+
+    def __mul__(self, o):
+        return D(z3.fpMul(RNE, self.t, lift_fp(o)))
+
+    def __rmul__(self, o):
+        return D(z3.fpMul(RNE, lift_fp(o), self.t))
+
+    def __truediv__(self, o):
+        return D(z3.fpDiv(RNE, self.t, lift_fp(o)))
+
+    def __rtruediv__(self, o):
+        return D(z3.fpDiv(RNE, lift_fp(o), self.t))
+
+    def __neg__(self):
+        return D(z3.fpNeg(self.t))
+
+    def __abs__(self):
+        return D(z3.fpAbs(self.t))
+
+    def __eq__(self, o):
+        if o is None:
+            return False
+        return B(z3.fpEQ(self.t, lift_fp(o)))
+
+    def __ne__(self, o):
+        if o is None:
+            return True
+        return B(z3.Not(z3.fpEQ(self.t, lift_fp(o))))
+
+    def __lt__(self, o):
+        return B(z3.fpLT(self.t, lift_fp(o)))
+
+    def __le__(self, o):
+        return B(z3.fpLEQ(self.t, lift_fp(o)))
+
+    def __gt__(self, o):
+        return B(z3.fpGT(self.t, lift_fp(o)))
+
+    def __ge__(self, o):
+        return B(z3.fpGEQ(self.t, lift_fp(o)))
+    __hash__ = None
+
+    def __bool__(self):
+        return bool(B(z3.Not(z3.fpIsZero(self.t))))
+
+    def __float__(self):
+        raise HarnessError('float() of a symbolic double')
+
+    def __repr__(self):
+        return 'D(%s)' % self.t
+
+
 def trunc_to_int(x):
     """C (int) cast: truncation toward zero"""
     if isinstance(x, I):
@@ -829,6 +916,14 @@ class Explorer:
         self.names[name] = v
         return S(v)
 
+    def double(self, name, finite=True):
+        """IEEE double input (finite unless stated)"""
+        v = z3.FP(self._nm(name), F64)
+        self.names[name] = v
+        if finite:
+            self._add(z3.And(z3.Not(z3.fpIsNaN(v)), z3.Not(z3.fpIsInf(v))))
+        return D(v)
+
     def fresh_real(self, hint='t'):
         self._fresh += 1
         return self.real('%s!%d' % (hint, self._fresh))
@@ -971,12 +1066,26 @@ def _model_value(val):
         return False
     if z3.is_string_value(val):
         return {'str': val.as_string()}
+    if z3.is_fp_value(val):
+        return {'fp': _fp_to_float(val).hex()}
     return str(val)
+
+
+def _fp_to_float(val):
+    import struct
+    if val.isNaN():
+        return float('nan')
+    if val.isInf():
+        return float('-inf') if val.isNegative() else float('inf')
+    bv = z3.simplify(z3.fpToIEEEBV(val))
+    return struct.unpack('>d', bv.as_long().to_bytes(8, 'big'))[0]
 
 
 def model_float(v):
     if isinstance(v, dict) and 'str' in v:
         return v['str']
+    if isinstance(v, dict) and 'fp' in v:
+        return float.fromhex(v['fp'])
     if isinstance(v, dict):
         return Fraction(int(v['num']), int(v['den']))
     return v
@@ -1036,6 +1145,10 @@ class FloatCtx:
 
     def string(self, name):
         return str(self._val(name, ''))
+
+    def double(self, name, finite=True):
+        v = self._val(name, 1.0)
+        return float(v)
 
     def fresh_real(self, hint='t'):
         self._fresh += 1
@@ -1382,6 +1495,19 @@ class _Math:
         """C fmod: result has the sign of x, |r| < |p|, x = k p + r, k integer (real-mode exact)"""
         if not (is_sym(x) or is_sym(p)):
             return math.fmod(x, p)
+        if isinstance(x, D) or isinstance(p, D):
+            # C99 fmod contract on doubles (finite x, non-zero finite p): |r| < |p|, r has the sign of x (or is zero),
+            # r == x when |x| < |p|.  (exactness r = x - n p is not encoded: the contract over-approximates fmod)
+            tx, tp = lift_fp(x), lift_fp(p)
+            c = CUR
+            c._fresh += 1
+            r = z3.FP('fmod!%d' % c._fresh, F64)
+            c._add(z3.And(z3.Not(z3.fpIsNaN(r)), z3.Not(z3.fpIsInf(r))))
+            c._add(z3.fpLT(z3.fpAbs(r), z3.fpAbs(tp)))
+            c._add(z3.Or(z3.fpIsZero(r), z3.fpIsNegative(r) == z3.fpIsNegative(tx)))
+            c._add(z3.Implies(z3.fpLT(z3.fpAbs(tx), z3.fpAbs(tp)), z3.fpEQ(r, tx)))
+            c._add(z3.fpLEQ(z3.fpAbs(r), z3.fpAbs(tx)))
+            return D(r)
         tx, tp = lift_real(x), lift_real(p)
         c = CUR
         c.assume_div(tp)
